@@ -191,7 +191,7 @@ StepResetTail(t) ==
 Unwind(sq) == OnlyFinally(sq) \o <<F("pumpSleep")>>
 PumpBody(t, fail) ==
   LET fr == Head(todo[t]) IN
-  /\ t = PUMP /\ fr.f \in {"pumpTop", "pumpIf2", "pumpSleep", "locNew", "locWait", "locDone", "connIf", "spaNew", "hs", "hsDone", "facadeIf", "die"}
+  /\ t = PUMP /\ fr.f \in {"pumpTop", "pumpIf2", "pumpSleep", "locNew", "locWait", "locDone", "connIf", "spaNew", "hs", "hsDone", "facadeIf", "die", "yield"}
   /\ nFail' = (IF fail THEN nFail + 1 ELSE nFail) /\ UNCHANGED <<rfc, hasId>>
   /\ CASE fr.f = "pumpTop" ->
             /\ running' = t
@@ -217,6 +217,9 @@ PumpBody(t, fail) ==
             ELSE /\ running' = None /\ locEp' = TRUE /\ locTasks' = TRUE /\ found' = FALSE
                  /\ alive' = [alive EXCEPT ![LOC] = TRUE] /\ Pop(t)
                  /\ UNCHANGED <<descr, facade, spa, spaConn, spaOpen, epOpen, spaTasks, facTask, dying, nextEp, nextFac, kf>>
+       [] fr.f = "yield" ->                                       \* asyncio.sleep(CONNECTION_STEP_PAUSE = 0): a real await
+            /\ running' = None /\ Pop(t)
+            /\ UNCHANGED <<descr, facade, spa, spaConn, spaOpen, epOpen, spaTasks, facTask, locEp, locTasks, alive, dying, nextEp, nextFac, found, kf>>
        [] fr.f = "locWait" ->                                     \* the polling loop of discover()
             /\ running' = None /\ Pop(t)
             /\ UNCHANGED <<descr, facade, spa, spaConn, spaOpen, epOpen, spaTasks, facTask, locEp, locTasks, alive, dying, nextEp, nextFac, found, kf>>
@@ -286,7 +289,8 @@ PumpBody(t, fail) ==
             /\ IF (net = "ok" /\ spaOpen[e] /\ ~hsBad) \/ hsLuck
                THEN /\ IF k = 1 THEN Push(t, <<R("GOT_FIRMWARE")>>)
                        ELSE IF k = 2 THEN Push(t, <<R("GOT_CHANNEL")>>)
-                       ELSE IF k = 3 THEN Push(t, <<R("GOT_CONFIG"), R("INITIAL_DATA_BLOCK")>>)
+                       \* (the step pause between the two events is a real await: another task may run there)
+                       ELSE IF k = 3 THEN Push(t, <<R("GOT_CONFIG"), F("yield"), R("INITIAL_DATA_BLOCK")>>)
                        ELSE IF ~spaOpen[e] /\ ~KF_LateComplete
                             THEN todo' = [todo EXCEPT ![t] = ToFinally(Tail(@))]     \* repaired: handshake abandoned
                             ELSE Push(t, <<R("SPA_COMPLETE")>>)
